@@ -200,7 +200,7 @@ def run(prop, tier):
     rc = verdict.finish()
     vlib.write_evidence(prop, tier, "model_checking", cov,
                         ["the classification of input text (JSON kind, decodability as an attribute object via a mirror struct, lexical atoms, version class) is done by the harness with the Go standard library",
-                         "the class of the first SSH_CONNECTION field (IPv4 / IPv6 / not an IP) is known by construction; for free byte strings only 'client IP = first field' is judged",
+                         "the first SSH_CONNECTION field is validated independently (netip.ParseAddr without zone, logged as conn.strict) and cross-checked against the driver's classes",
                          "transaction-id freshness is judged over all successful calls of one process (sorted list, adjacent ids distinct)"],
                         time.time() - t0, len(verdict.violations))
     return rc
